@@ -34,18 +34,20 @@ prop("C01", KERNELS_CODEC + [
 prop("C02", [H("K8_storedmeta", quick={"wall": "140s", "shards": 8}), H("H02_stored", quick={"wall": "140s", "shards": 16, "param": "wide=0,maxAP=1,maxDocs=1"}, thorough={"wall": "1500s", "shards": 16, "param": "wide=1,maxAP=2,maxDocs=2"})])
 prop("C03", [H("K6_boundaries"), H("H03_coder"), H("H03_dv", quick={"wall": "140s", "shards": 16, "param": "maxDocs=2,maxSeq=4,lite=1"}, thorough={"wall": "1500s", "shards": 16, "param": "maxDocs=3,maxSeq=4"})])
 prop("C04", [H("K7_footer"), H("H04_persist", quick={"wall": "140s", "shards": 16, "param": "lite=1,maxDocs=1"}, thorough={"wall": "1500s", "shards": 16, "param": "maxDocs=2"})])
-prop("C05", [H("K9_copystored"), H("H05_merge", common={"param": "maxDocs=1,tieReopen=1,maxOcc=1"}, quick={"wall": "140s", "shards": 12}, thorough={"wall": "1500s", "shards": 16, "param": "maxDocs=2,tieReopen=0,maxOcc=1"}),
+prop("C05", [H("K9_copystored"), H("H05_merge", common={"param": "maxDocs=1,tieReopen=1,maxOcc=1"}, quick={"wall": "140s", "shards": 12}, thorough={"wall": "1500s", "shards": 16, "param": "maxDocs=2,tieReopen=0,maxOcc=1,gen2=1"}),
              # multi-valued stored fields (up to 3 occurrences with array positions), every field present and stored
              H("H05_merge", common={"param": "maxDocs=1,tieReopen=1,maxOcc=3,storeAll=1,always=1,fixAP=1,symTyp=0"}, quick={"wall": "140s", "shards": 4}, thorough={"wall": "1500s", "shards": 16, "param": "maxDocs=2,tieReopen=1,maxOcc=3,storeAll=1,always=1,fixAP=1,symTyp=0"})])
-prop("C06", KERNELS_CODEC[2:] + [H("H06_locids"), H("H06_enum", quick={"wall": "140s", "shards": 4}), H("H06_merge", quick={"wall": "140s", "shards": 16, "param": "maxDocs=1,tieReopen=1,lite=1"}, thorough={"wall": "1500s", "shards": 16, "param": "maxDocs=2,tieReopen=0"})])
+prop("C06", KERNELS_CODEC[2:] + [H("H06_locids"), H("H06_enum", quick={"wall": "140s", "shards": 4}), H("H06_merge", quick={"wall": "140s", "shards": 16, "param": "maxDocs=1,tieReopen=1,lite=1"}, thorough={"wall": "1500s", "shards": 16, "param": "maxDocs=2,tieReopen=0,gen2=1"})])
 prop("C07", [
     H("K2_uvarint_rt"), H("K2_uvarint_agree"),
-    # everything crossed on small lists
-    H("H07_seq", quick={"wall": "140s", "shards": 6, "param": "maxN=2,maxL=1,maxLocs=1,variants=3"}, thorough={"wall": "1500s", "shards": 16, "param": "maxN=4,maxL=3,maxLocs=1,variants=3"}),
-    # longer lists (more chunks), no exclusion, all details: every postings set
-    H("H07_seq", quick={"wall": "140s", "shards": 6, "param": "fixN=4,maxL=1,maxLocs=0,variants=1,exceptNil=1,allFlags=1"}, thorough={"wall": "1500s", "shards": 16, "param": "fixN=5,maxL=3,maxLocs=0,variants=1,exceptNil=1,allFlags=1"}),
-    # longer lists, every exclusion set, every document a hit
-    H("H07_seq", quick={"wall": "140s", "shards": 4, "param": "fixN=3,maxL=2,maxLocs=0,variants=1,allHits=1,allFlags=1"}, thorough={"wall": "1500s", "shards": 16, "param": "fixN=5,maxL=3,maxLocs=0,variants=1,allHits=1,allFlags=1"}),
+    # A: small lists, every variant (built / merged single-hit / reused objects / replaced actual bitmap), every flag combination
+    H("H07_seq", quick={"wall": "140s", "shards": 8, "param": "maxN=2,maxL=1,maxLocs=0,variants=4"}, thorough={"wall": "1500s", "shards": 16, "param": "maxN=3,maxL=2,maxLocs=1,variants=4"}),
+    # B: small lists with locations, all details, two calls
+    H("H07_seq", quick={"wall": "140s", "shards": 3, "param": "maxN=2,maxL=2,maxLocs=1,variants=1,allFlags=1"}, thorough={"wall": "1500s", "shards": 16, "param": "maxN=4,maxL=3,maxLocs=1,variants=1,allFlags=1"}),
+    # C: longer lists (more chunks), no exclusion, all details: every postings set
+    H("H07_seq", quick={"wall": "140s", "shards": 3, "param": "fixN=4,maxL=2,maxLocs=0,variants=1,exceptNil=1,allFlags=1"}, thorough={"wall": "1500s", "shards": 16, "param": "fixN=5,maxL=3,maxLocs=0,variants=1,exceptNil=1,allFlags=1"}),
+    # D: longer lists, every exclusion set, every document a hit
+    H("H07_seq", quick={"wall": "140s", "shards": 2, "param": "fixN=3,maxL=2,maxLocs=0,variants=1,allHits=1,allFlags=1"}, thorough={"wall": "1500s", "shards": 16, "param": "fixN=5,maxL=3,maxLocs=0,variants=1,allHits=1,allFlags=1"}),
 ])
 prop("C08", [H("H08_tmp"), H("H08_dict", quick={"wall": "175s", "shards": 16, "param": "provs=6,lite=1"}, thorough={"wall": "1500s", "shards": 16, "param": "provs=6"})])
 prop("C12", [H("K5_synonym"), H("H12_syn", common={"param": "maxSyn=2"}, quick={"wall": "140s", "shards": 16})])
